@@ -33,8 +33,8 @@ func c08Describe(cs *cvxCase) string {
 	if len(cs.C.Routes) > 0 {
 		hostopt = cs.C.Routes[0].HostOpt
 	}
-	return fmt.Sprintf("%s %s kind=%s host=%s route host=%q cfg(clientip=%v tls=%v sts=%v) forged=[%s]",
-		conn, cvxJoin(cs.C.Path), cs.C.Kind, cs.C.RHost, hostopt, cs.C.CfgIP, cs.C.CfgTLS, cs.C.CfgSTS, c08Forged(cs))
+	return fmt.Sprintf("%s peer=%s %s kind=%s host=%s route host=%q cfg(clientip=%v tls=%v sts=%v names=%s) forged=[%s]",
+		conn, cvxPeerOf(cs), cvxJoin(cs.C.Path), cs.C.Kind, cs.C.RHost, hostopt, cs.C.CfgIP, cs.C.CfgTLS, cs.C.CfgSTS, cs.C.CfgSpell, c08Forged(cs))
 }
 
 func c08Features(cs *cvxCase, clause string) map[string]any {
@@ -45,6 +45,18 @@ func c08Features(cs *cvxCase, clause string) map[string]any {
 	f := map[string]any{"sub": cs.C.Sub, "clause": clause}
 	if st, ok := cs.C.Forged[clause]; ok {
 		f["forged"] = st
+	}
+	switch clause {
+	case "clientip", "xrealip", "xff", "forwarded":
+		if cs.C.Peer == "v6" {
+			f["peer"] = "v6"
+		}
+	}
+	switch clause {
+	case "clientip", "tlshdr":
+		if cs.C.CfgSpell == "odd" {
+			f["cfgspell"] = "odd"
+		}
 	}
 	switch clause {
 	case "xff":
